@@ -547,7 +547,8 @@ func sweepTasks(r *hx.Rand, total int) []*task {
 		"has_pattern":         {P("'abc def ghi'", "regex-groups"), P("'abc def ghi'", "regex-bad"), P("10kB-text", "regex-repeat")},
 		"has_beginning":       {P("multibyte", "'a'"), P("'a'", "multibyte")},
 		"op:^": {P("0.001", "999999999"), P("1.0", "999999999"), P("2", "999999999"), P("10", "-999999999"), P("0", "-1"), P("-1.5", "0.5"), P("0.5", "999999999"), P("2", "0.5"), P("10^30", "10^30"), P("1", "2^64"),
-			P("2", "-999999999"), P("3", "-99999999"), P("1E-1000", "1.5"), P("1E-1000", "0.5"), P("10kB-digits", "0.001"), P("0.1", "2000000000"), P("0.5", "100000"), P("0.5", "100001")},
+			P("2", "-999999999"), P("3", "-99999999"), P("1E-1000", "1.5"), P("1E-1000", "0.5"), P("10kB-digits", "0.001"), P("0.1", "2000000000"), P("0.5", "100000"), P("0.5", "100001"),
+			P("-7", "999999999"), P("-2", "-999999999"), P("-2", "100001"), P("-999999999", "999999999"), P("-2^31", "2^31-1"), P("-1.5", "999999999")},
 		"op:/": {P("1", "0"), P("10^30", "10^-30"), P("1", "3")},
 		"op:*": {P("10^30", "10^30"), P("10^-30", "10^-30"), P("1E1000", "1E1000")},
 		"op:+": {P("10^30", "10^-30"), P("1E1000", "1E-1000")},
